@@ -440,8 +440,9 @@ fn gen_c10(tier: &str, rng: &mut Rng) -> Vec<Case> {
         };
         let mut cfg = rand_cfg(rng, &[0, 1, 2, 3], true, true);
         // one in four: the document carries its own sheet (hiding, white space, colour)
-        let html = if rng.chance(1, 4) {
-            cfg.doc_css = true;
+        let html = if rng.chance(1, 3) {
+            // (with the option off the sheet must be inert on every route)
+            cfg.doc_css = rng.chance(2, 3);
             format!("<style>p{{color:#f00}} li{{white-space:pre}} h2,h3,blockquote p{{display:none}} em{{background-color:#00f}}</style>{}", html)
         } else {
             html
@@ -585,7 +586,7 @@ fn gen_c11(tier: &str, rng: &mut Rng) -> Vec<Case> {
     let mut cases = Vec::new();
     for gi in 0..n {
         let tables = rng.chance(1, 3);
-        let (mut html, _) = gen_doc(rng, GenOpts { tables: if tables { 2 } else { 0 }, nested_tables: tables, ..GenOpts::all() });
+        let (mut html, _) = gen_doc(rng, GenOpts { tables: if tables { 2 } else { 0 }, nested_tables: tables, odd_links: true, ..GenOpts::all() });
         let mut css_root = rng.chance(1, 40);
         // prefixed blocks without any content (their minimum width is 0)
         if rng.chance(1, 6) {
@@ -601,6 +602,18 @@ fn gen_c11(tier: &str, rng: &mut Rng) -> Vec<Case> {
             css_root = rng.chance(1, 3);
             html = if rng.chance(1, 2) { e.to_string() } else { format!("{}{}", html, e) };
         }
+        // link targets holding characters wider than the narrowest widths (the footnote list is
+        // hard-wrapped too)
+        let wide_href = rng.chance(1, 8);
+        if wide_href {
+            let e = *rng.pick(&[
+                "<p>See <a href=\"http://example.jp/\u{4e16}\u{754c}\">this page</a> for more.</p>",
+                "<a href=\"\u{4e2d}\">x</a>",
+                "<ul><li><a href=\"/\u{3042}\">y</a></li></ul>",
+                "<blockquote><a href=\"u\">\u{6f22}</a> <a href=\"\u{5b57}\u{5b57}\">z</a></blockquote>",
+            ]);
+            html = if rng.chance(1, 2) { e.to_string() } else { format!("{}{}", html, e) };
+        }
         let mut bytes = html.into_bytes();
         if rng.chance(1, 6) {
             bytes = mutate(rng, &bytes);
@@ -613,9 +626,12 @@ fn gen_c11(tier: &str, rng: &mut Rng) -> Vec<Case> {
             // the whole document (or its body) hidden by CSS: still Ok / TooNarrow, never another error
             base.user_css.push(rng.pick(&["html { display: none; }", "body { display: none; }", "* { display: none; }", "html, body { height: 0; overflow: hidden }"]).to_string());
         }
+        if wide_href && rng.chance(1, 2) {
+            base.footnotes = 1;
+        }
         let mut ov = base.clone();
         ov.overflow = true;
-        let w = if rng.chance(1, 2) { rng.range(1, 12) } else { rng.range(1, 60) };
+        let w = if wide_href { rng.range(1, 3) } else if rng.chance(1, 2) { rng.range(1, 12) } else { rng.range(1, 60) };
         for (role, cfg, width) in [("zero", base.clone(), 0usize), ("base", base.clone(), w), ("ovf", ov.clone(), w), ("zero_ovf", ov.clone(), 0usize)] {
             let id = cases.len();
             let mut c = mk_case(id, 0, cfg, width, bytes.clone(), Some(0), g(role), if tables { "tables" } else { "table_free" });
